@@ -531,11 +531,39 @@ Inductive wf_extra : bytes -> Prop :=
 Definition sat_u (m : smember) : bool := sat (m_satu m) (m_usize m).
 Definition sat_c (m : smember) : bool := sat (m_satc m) (sp_csize m).
 Definition sat_o (m : smember) (off : Z) : bool := sat (m_sato m) off.
-(* a central entry relic can read: field ranges, and the saturated set is one relic's positional ZIP64 reader handles *)
+(* a central entry relic can read: field ranges; extra data in front of a trailing ZIP64 record must be well-formed records *)
 Definition central_ok (m : smember) (off : Z) : Prop :=
   0 <= m_creator m < 65536 /\ 0 <= m_reader m < 65536 /\ 0 <= m_flags m < 65536 /\ 0 <= m_method m < 65536 /\
   0 <= m_mtime m < 65536 /\ 0 <= m_mdate m < 65536 /\ 0 <= m_crc m < 4294967296 /\ 0 <= m_iattrs m < 65536 /\
   0 <= m_eattrs m < 4294967296 /\ zlen (m_name m) < 65536 /\ zlen (sp_cextra m off) < 65536 /\ zlen (m_comment m) < 65536 /\
   0 <= m_usize m < 2 ^ 64 /\ sp_csize m < 2 ^ 64 /\ 0 <= off < 2 ^ 64 /\
-  (sat_o m off = true -> sat_c m = true) /\ (sat_c m = true -> sat_u m = true) /\
-  (sat_u m = true -> m_z64last m = true -> wf_extra (m_cextra m)).
+  (sat_u m || sat_c m || sat_o m off = true -> m_z64last m = true -> wf_extra (m_cextra m)).
+
+(* class K of the round-trip theorems: plain layout (no prefix, comment, gaps, reordering), every member readable *)
+Definition pairs (ms : list smember) : list (smember * Z) := combine ms (sp_offsets 0 [] ms).
+Definition classK (ms : list smember) (mode : Z) : Prop :=
+  Forall local_ok ms /\ Forall (fun p => central_ok (fst p) (snd p)) (pairs ms) /\
+  (mode = 0 \/ mode = 1 \/ mode = 2) /\ zlen (build ms (plain_opts mode)) < 2 ^ 63.
+Definition views (fs : list cdent) (ss : list sized) : list sview := map (fun p => ent_view (fst p) (snd p)) (combine fs ss).
+
+(* ------------------------------------------------------------------ an archive written by relic from scratch *)
+Record nfcall := mkCall { c_name : bytes; c_extra : bytes; c_cdata : bytes; c_usize : Z; c_crc : Z; c_method : Z;
+                          c_mtime : Z; c_mdate : Z; c_desc : bool }.
+Definition fresh_step (st : list cdent * Z * bytes) (c : nfcall) : list cdent * Z * bytes :=
+  let b := fst (new_file (c_name c) (c_extra c) (c_cdata c) (c_usize c) (c_crc c) (c_method c) (c_mtime c) (c_mdate c) (c_desc c)) in
+  let e := snd (new_file (c_name c) (c_extra c) (c_cdata c) (c_usize c) (c_crc c) (c_method c) (c_mtime c) (c_mdate c) (c_desc c)) in
+  let r := add_file (fst (fst st)) (snd (fst st)) e (zlen b) in
+  (fst r, snd r, snd st ++ b).
+(* new(Directory); NewFile(...) for every call; WriteDirectory(w, w, force) *)
+Definition fresh_archive (cs : list nfcall) (force : bool) : bytes :=
+  let st := fold_left fresh_step cs ([], 0, []) in
+  snd st ++ match write_directory (fst (fst st)) (snd (fst st)) force false false with Ok (a, b) => a ++ b | _ => [] end.
+(* the APPNOTE member NewFile is supposed to produce *)
+Definition nf_member (c : nfcall) : smember :=
+  mkMem (c_name c) (c_extra c) (c_extra c) [] 45 (if c_desc c then 45 else 20) 0 (c_method c) (c_mtime c) (c_mdate c) (c_crc c)
+        (c_cdata c) (c_usize c) 0 0 0 (if c_desc c then D24 else DNone) false false false false false.
+Definition call_ok (c : nfcall) : Prop :=
+  zlen (c_name c) < 65536 /\ zlen (c_extra c) < 65536 /\ 0 <= c_crc c < 4294967296 /\ zlen (c_cdata c) < 4294967295 /\
+  0 <= c_usize c < 4294967295 /\ 0 <= c_method c < 65536 /\ 0 <= c_mtime c < 65536 /\ 0 <= c_mdate c < 65536.
+(* does WriteDirectory emit ZIP64 records for this archive (any descriptor member makes minVersion 45) *)
+Definition fresh_mode (cs : list nfcall) (force : bool) : Z := if force || existsb c_desc cs then 1 else 0.
